@@ -10,6 +10,7 @@ from props.base import Context  # noqa: F401
 
 PID = 'C10'
 TIE_MODULES = ['DiffxVerif.Tie.Sections', 'DiffxVerif.Tie.Spec']
+NEEDS = ['sections', 'options', 'spec_tree']
 ASSUMPTIONS = [
     'expected index of the first rejected section comes from harness/specdoc.py (hierarchy written from docs/spec, independent of pydiffx.sections)',
     'each id is given a minimal valid body (length=2 "a\\n" / length=3 "{}\\n") so that only the order decides',
